@@ -1256,8 +1256,12 @@ def _rev(pe, st, args, t):
 
 @pmodel("std::iter::Iterator::step_by")
 def _step_by(pe, st, args, t):
-    it = _finite(_as_iter(pe, st, args[0]), "step_by()")
+    rf = _range_from(args[0])
     n = args[1]
+    if rf and n != TOP and n[0] == "int" and n[2] > 0:
+        # an endless `start..` stepped: kept as an endless arithmetic progression until something bounds it (take / zip)
+        return ("adt", "std::ops::RangeFrom", 0, "RangeFrom", (mk_int(rf[0], rf[1]),), ("step", n[2]))
+    it = _finite(_as_iter(pe, st, args[0]), "step_by()")
     if it is None or n == TOP or n[0] != "int":
         raise _Abort("top", "step_by() of an unknown iterator/step")
     if n[2] == 0:
@@ -1282,9 +1286,10 @@ def _chain(pe, st, args, t):
 
 
 def _range_from(v):
-    """(type, start) of a `start..` with a known start, else None"""
+    """(type, start[, step]) of a `start..` (possibly stepped) with a known start, else None"""
     if v != TOP and v[0] == "adt" and v[1] in ("std::ops::RangeFrom", "core::ops::RangeFrom") and v[4] and v[4][0] != TOP and v[4][0][0] == "int":
-        return (v[4][0][1] or "usize", v[4][0][2])
+        step = v[5][1] if len(v) > 5 and isinstance(v[5], tuple) and v[5][0] == "step" else 1
+        return (v[4][0][1] or "usize", v[4][0][2], step)
     return None
 
 
@@ -1298,8 +1303,8 @@ def _zip(pe, st, args, t):
         if other is None or (len(other) > 3 and other[3] == ("cycle",)):
             raise _Abort("top", "zip() of an endless range with an unknown or endless iterator")
         items = list(other[1][other[2]:])
-        ty, s0 = rfa or rfb
-        cnt = [mk_int(ty, s0 + i) for i in range(len(items))]
+        ty, s0, stp = rfa or rfb
+        cnt = [mk_int(ty, s0 + i * stp) for i in range(len(items))]
         pairs = zip(cnt, items) if rfa else zip(items, cnt)
         return ("iter", tuple(("tuple", (x, y)) for x, y in pairs), 0)
     a, b = _as_iter(pe, st, args[0]), _as_iter(pe, st, args[1])
@@ -1319,7 +1324,7 @@ def _zip(pe, st, args, t):
 def _take(pe, st, args, t):
     rf = _range_from(args[0])
     if rf and args[1] != TOP and args[1][0] == "int":
-        return ("iter", tuple(mk_int(rf[0], rf[1] + i) for i in range(args[1][2])), 0)
+        return ("iter", tuple(mk_int(rf[0], rf[1] + i * rf[2]) for i in range(args[1][2])), 0)
     a, n = _as_iter(pe, st, args[0]), args[1]
     if a is None or n == TOP or n[0] != "int":
         raise _Abort("top", "take() of an unknown iterator")
